@@ -116,6 +116,9 @@ async def run_history(
         hooks["setup"](gateway, transport, model)
     info: dict[str, Any] = {"classes": Counter(), "steps": 0, "diverged": False, "model": model, "gateway": gateway}
     classes: Counter = info["classes"]
+    # "persistent": one long-lived listen() generator (renewed only after an error); "fresh": a new one per line
+    listener = env.Listener(gateway) if case.get("listen_mode") == "persistent" else None
+    classes[f"listen={'persistent' if listener else 'fresh'}"] += 1
 
     def bad(sig: str, detail: str, idx: int) -> Outcome:
         return fail(sig, f"step {idx} {case['ops'][idx]!r}: {detail}", classes=tuple(classes))
@@ -179,7 +182,10 @@ async def run_history(
             transport.on_write = on_write
         if "before_rx" in hooks:
             hooks["before_rx"](rec, gateway, transport, model)
-        rec.status, rec.value = await env.rx(gateway, line)
+        if listener is not None:
+            rec.status, rec.value = await listener.next(line)
+        else:
+            rec.status, rec.value = await env.rx(gateway, line)
         transport.on_write = None
         rec.outcome = classify(rec.status, rec.value)
         rec.writes = transport.writes_at(idx)
@@ -336,6 +342,8 @@ async def run_history(
             verdict = hooks["after_step"](rec, gateway, transport, model)
             if verdict is not None:
                 return bad(verdict[0], verdict[1], idx), info
+    if listener is not None:
+        await listener.close()
     return None, info
 
 
